@@ -32,6 +32,7 @@ type Canon struct {
 	// rotated counted loops (loops.go)
 	rot     []*rotLoop
 	rotDone bool
+	owner   *FuncFacts // the facts this renderer belongs to (branch conditions for boolean values)
 }
 
 // localName names an address-taken local by its type and ordinal among the
@@ -359,6 +360,11 @@ func (c *Canon) render(v ssa.Value, d int) string {
 		}
 		return c.termD(v.Tuple, d) + "#" + fmt.Sprint(v.Index)
 	case *ssa.Call:
+		if c.inlined(v.Common()) != nil {
+			if s, ok := c.boolTerm(v); ok {
+				return s
+			}
+		}
 		if v.Common().Signature().Results().Len() == 1 {
 			if s, ok := c.inlinedResult(v, 0, d); ok {
 				return s
@@ -375,6 +381,12 @@ func (c *Canon) render(v ssa.Value, d int) string {
 		carried, rl := c.rotExitPhi(v)
 		if carried != nil && len(v.Edges) == 2 {
 			return c.termD(carried, d)
+		}
+		if s, ok := c.boolTerm(v); ok {
+			return s
+		}
+		if s, ok := c.selPhi(v, d); ok {
+			return s
 		}
 		if s, ok := c.itePhi(v, d); ok {
 			return s
@@ -395,6 +407,13 @@ func (c *Canon) render(v ssa.Value, d int) string {
 				if p2, ok := e.(*ssa.Phi); ok {
 					if p2 == v {
 						set["↺="] = true // some path around the loop leaves the value unchanged
+					}
+					if p2 != v && !seenPhi[p2] {
+						if s, ok := c.boolTerm(p2); ok {
+							set[s] = true // a boolean combination keeps its conditions
+							seenPhi[p2] = true
+							continue
+						}
 					}
 					if !seenPhi[p2] {
 						seenPhi[p2] = true
